@@ -153,6 +153,87 @@ impl DefaultSweep {
     }
 }
 
+/// Zone inference against an own instance of the finder the library is documented to use, on
+/// sequences of lookups that a cache keyed on too little would get wrong: walks across zone
+/// borders in steps of 10..500 m, repeated and alternating lookups.
+fn border_walks(args: &Args, rep: &mut Report) {
+    use std::sync::LazyLock;
+    static ORACLE: LazyLock<tzf_rs::DefaultFinder> = LazyLock::new(tzf_rs::DefaultFinder::new);
+    let oracle = |lat: f64, lon: f64| -> Tz { ORACLE.get_tz_name(lon, lat).parse::<Tz>().unwrap_or(chrono_tz::UTC) };
+    let lib = |lat: f64, lon: f64| -> Result<Tz, String> {
+        let c = Coordinates::new(lat, lon).ok_or_else(|| format!("valid pair ({lat}, {lon}) rejected"))?;
+        guarded(|| *TzLocation::from_coords(c).get_timezone()).map_err(|p| format!("from_coords({lat}, {lon}) panicked: {p}"))
+    };
+    let n = args.cases(6_000, 60_000);
+    let mut prev: Option<(f64, f64)> = None;
+    for k in 0..n {
+        let mut r = Rng::new(args.seed, 0xb0de + args.worker, k);
+        // two end points in different zones: cities, or random sites
+        let (a, b) = if r.chance(40) {
+            let (x, y) = (r.pick(&CITIES), r.pick(&CITIES));
+            ((x.1, x.2), (y.1, y.2))
+        } else {
+            let p = (r.f64() * 130.0 - 60.0, r.f64() * 360.0 - 180.0);
+            ((p.0, p.1), ((p.0 + (r.f64() - 0.5) * 20.0).clamp(-85.0, 85.0), (p.1 + (r.f64() - 0.5) * 20.0).clamp(-180.0, 180.0)))
+        };
+        let (za, zb) = (oracle(a.0, a.1), oracle(b.0, b.1));
+        if za == zb {
+            rep.count("border_walks_same_zone_skipped");
+            continue;
+        }
+        // bisect on the oracle to a point pair ~10 m apart lying in different zones
+        let at = |t: f64| (a.0 + (b.0 - a.0) * t, a.1 + (b.1 - a.1) * t);
+        let (mut lo, mut hi) = (0.0f64, 1.0f64);
+        for _ in 0..40 {
+            let mid = (lo + hi) / 2.0;
+            let p = at(mid);
+            if oracle(p.0, p.1) == za {
+                lo = mid;
+            } else {
+                hi = mid;
+            }
+            let (p, q) = (at(lo), at(hi));
+            if (p.0 - q.0).abs() < 0.00005 && (p.1 - q.1).abs() < 0.00005 {
+                break;
+            }
+        }
+        let len_deg = ((b.0 - a.0).powi(2) + (b.1 - a.1).powi(2)).sqrt().max(1e-9);
+        let border = (lo + hi) / 2.0;
+        // a walk across the border: signed distances in degrees along the segment (1e-4 deg ~ 11 m)
+        let steps = [-5e-3, -1e-3, -5e-4, -1e-4, 1e-4, -1e-4, 5e-4, 1e-3, -5e-4, 5e-3, 1e-4, 1e-4, -1e-4, -5e-3];
+        rep.evaluations += 1;
+        rep.begin(&format!("border walk {a:?} -> {b:?}"));
+        let mut crossings = 0;
+        let mut last_zone: Option<Tz> = None;
+        for s in steps {
+            let p = at((border + s / len_deg).clamp(0.0, 1.0));
+            let expect = oracle(p.0, p.1);
+            match lib(p.0, p.1) {
+                Ok(got) if got == expect => {}
+                Ok(got) => {
+                    rep.violation("zone_inference", format!("from_coords({}, {}) infers {got}; the zone finder gives {expect} for these coordinates (previous lookup: {prev:?})", p.0, p.1), json!({"lat": p.0, "lon": p.1, "before": prev.map(|q| json!({"lat": q.0, "lon": q.1})), "part": "border"}), None);
+                    break;
+                }
+                Err(msg) => {
+                    rep.violation("panic", msg, json!({"lat": p.0, "lon": p.1, "part": "border"}), None);
+                    break;
+                }
+            }
+            if last_zone.is_some() && last_zone != Some(expect) {
+                crossings += 1;
+            }
+            last_zone = Some(expect);
+            prev = Some(p);
+            rep.count("border_walk_lookups");
+        }
+        rep.add("border_crossings_between_consecutive_lookups", crossings);
+        rep.nontrivial(crate::rng::hash64(&format!("border|{a:?}|{b:?}")));
+        if rep.full() {
+            return;
+        }
+    }
+}
+
 pub struct Site {
     pub lat: f64,
     pub lon: f64,
@@ -314,6 +395,10 @@ pub fn run(args: &Args, rep: &mut Report) {
             lat += 5.0;
         }
     }
+    border_walks(args, rep);
+    if rep.full() {
+        return;
+    }
     // Exhaustive over dates: the defaults on EVERY day of the supported range (years sharded)
     {
         let of = args.of.max(1) as i32;
@@ -416,6 +501,21 @@ pub fn replay(case: &Value, rep: &mut Report) {
     if let (Some(lat), Some(lon), Some(date)) = (case["lat"].as_f64(), case["lon"].as_f64(), case["date"].as_str().and_then(|s| s.parse::<NaiveDate>().ok())) {
         if let Err(msg) = check_site(lat, lon, date, rep) {
             rep.violation("sun_events", msg, case.clone(), None);
+        }
+    } else if let (Some("border"), Some(lat), Some(lon)) = (case["part"].as_str(), case["lat"].as_f64(), case["lon"].as_f64()) {
+        static ORACLE: std::sync::LazyLock<tzf_rs::DefaultFinder> = std::sync::LazyLock::new(tzf_rs::DefaultFinder::new);
+        if let (Some(blat), Some(blon)) = (case["before"]["lat"].as_f64(), case["before"]["lon"].as_f64()) {
+            if let Some(c) = Coordinates::new(blat, blon) {
+                let _ = guarded(|| *TzLocation::from_coords(c).get_timezone());
+            }
+        }
+        let expect = ORACLE.get_tz_name(lon, lat).parse::<Tz>().unwrap_or(chrono_tz::UTC);
+        if let Some(c) = Coordinates::new(lat, lon) {
+            match guarded(|| *TzLocation::from_coords(c).get_timezone()) {
+                Ok(got) if got == expect => {}
+                Ok(got) => rep.violation("zone_inference", format!("from_coords({lat}, {lon}) infers {got}; the zone finder gives {expect} for these coordinates (after the recorded previous lookup)"), case.clone(), None),
+                Err(p) => rep.violation("panic", format!("from_coords({lat}, {lon}) panicked: {p}"), case.clone(), None),
+            }
         }
     } else if let (Some("defaults_sweep"), Some(d)) = (case["part"].as_str(), case["date"].as_str().and_then(|s| s.parse::<NaiveDate>().ok())) {
         if let Err(msg) = DefaultSweep::new().check(d) {
